@@ -32,7 +32,7 @@ REAL_COMPONENTS = ["cli _run launch loop", "expand_run_space (plan source)", "Ru
 STUB_COMPONENTS = ["leaf processors", "SvOrchestrator/RecordingExecutor selected from YAML", "SimClock/SimUUID", "file seam"]
 ASSUMPTIONS = ["the plan is taken from expand_run_space (C08 is not claimed)", "trace content is compared after removing the C10 "
                "volatile fields and the run-space FK fields (launch id, attempt, index, context)"]
-REQUIRED_PROBES = ["empty_plan", "yaml_not_in_cwd_with_source_and_decoy", "other_process_other_hashseed", "failing_run", "source_file", "idempotency_key", "explicit_launch_id", "attempt_gt_1", "multi_run_launch", "directory_mode"]
+REQUIRED_PROBES = ["empty_plan", "yaml_not_in_cwd_with_source_and_decoy", "other_process_other_hashseed", "failing_run", "source_file", "idempotency_key", "explicit_launch_id", "attempt_gt_1", "multi_run_launch", "directory_mode", "run_space_nested_under_pipeline"]
 CONFIG = {
     "quick": {"runs": 800, "budget_s": 240, "timeout_s": 180},
     "thorough": {"runs": 30000, "budget_s": 1600, "timeout_s": 180},
@@ -64,6 +64,7 @@ def generate(rng: random.Random, tier: str, seed: int) -> dict:
         sc["run_space"] = {"blocks": [{"mode": "combinatorial", "context": {"rs_empty": [], "rs_other": [1.0, 2.0]}}]}
         sc["files"] = {}
         sc["fail_at"] = None
+    sc["nested_layout"] = rng.random() < 0.3
     sc["hashseed"] = rng.choice([1, 2, 3, 5, 6, 7, 11]) if (rsd["files"] or rng.random() < 0.15) else None
     return sc
 
@@ -90,10 +91,11 @@ def _rs_keys(rs: dict) -> set:
     return keys
 
 
-def _launch(sc: dict, w, name: str, run_space: dict, *, opt: str, idem: str = "k1", faults=None, extra=()) -> dict:
+def _launch(sc: dict, w, name: str, run_space: dict, *, opt: str, idem: str = "k1", faults=None, extra=(), nested: bool = False) -> dict:
     base = sc["base"]
     pfx = _pfx(sc)
-    harness.write_cli_config(base, f"{pfx}{name}.yaml", trace=harness.trace_cfg(sc["mode"], sc["detail"], name), run_space=run_space)
+    harness.write_cli_config(base, f"{pfx}{name}.yaml", trace=harness.trace_cfg(sc["mode"], sc["detail"], name), run_space=run_space,
+                             run_space_nested=nested)
     argv = ["run", f"{pfx}{name}.yaml", "--run-space-attempt", str(sc["attempt"])]
     if sc.get("rs_file") and name == "launch_rsfile":
         # same plan, but the run space comes from a separate file given on the command line
@@ -424,6 +426,27 @@ def execute(sc: dict, seed: int) -> dict:
             s3 = next((r for r in L3["records"] if r.get("record_type") == "run_space_start"), {})
             if s3.get("run_space_launch_id") == launch_id:
                 viols.append(oracles.V("launch_id", "different_key_same_launch_id", f"{where}; {launch_id}"))
+        if sc.get("nested_layout"):
+            # the run space written under `pipeline:` (next to `nodes`) is the same launch written differently
+            stats["probe.run_space_nested_under_pipeline"] = 1
+            Ln = _launch(sc, w, "nested", rs, opt=sc["launch_opt"], nested=True, faults=[dict(fault, run=fail_at)] if fail_at is not None else None)
+            tn = [r.get("record_type") for r in Ln["records"]]
+            wn = f"{where}; nested layout exit={Ln['cli']['code']} types={tn[:3]}..{tn[-2:]}"
+            if tn.count("run_space_start") != 1 or tn[:1] != ["run_space_start"]:
+                viols.append(oracles.V("bracket", "run_space_start:nested_layout", wn))
+            if tn.count("run_space_end") != 1 or tn[-1:] != ["run_space_end"]:
+                viols.append(oracles.V("bracket", "run_space_end:nested_layout", wn))
+            sn = next((r for r in Ln["records"] if r.get("record_type") == "run_space_start"), {})
+            if spec_id is not None and sn.get("run_space_spec_id") != spec_id:
+                viols.append(oracles.V("spec_id", "differs_for_nested_layout", f"{wn}; {spec_id} vs {sn.get('run_space_spec_id')}"))
+            ps_n = [r for r in Ln["records"] if r.get("record_type") == "pipeline_start"]
+            if [p.get("run_space_index") for p in ps_n] != list(range(len(ps_n))) or any(p.get("run_space_launch_id") != sn.get("run_space_launch_id") or
+                                                                                         p.get("run_space_attempt") != sc["attempt"] for p in ps_n):
+                viols.append(oracles.V("fk", "nested_layout", f"{wn}; pipeline_start fks {[(p.get('run_space_launch_id'), p.get('run_space_attempt'), p.get('run_space_index')) for p in ps_n][:3]}"))
+            if [_canon(ri["context"]) for ri in Ln["run_inputs"]] != [_canon(ri["context"]) for ri in L["run_inputs"]]:
+                viols.append(oracles.V("plan_order", "nested_layout", f"{wn}; executed contexts differ from the top-level layout"))
+            if insp is not None and _inspect_spec_id("nested", _pfx(sc)) != insp:
+                viols.append(oracles.V("spec_id", "inspect_differs_for_nested_layout", wn))
         mut = _mutate_plan(rs, mrng)
         if mut is not None:
             L4 = _launch(sc, w, "mutated", mut, opt="generated")
